@@ -228,6 +228,16 @@ def k_mismatch(ctx, d, kind):
             props = uf.FixedFrameProperties(total, props.insert_zone_properties.present, props.fecf_properties.present, props.insert_zone_properties.size, props.fecf_properties.size)
         else:
             return
+    elif kind == "sizes_leave_zero":
+        # managed insert-zone / FECF sizes that consume exactly the whole data field: derived TFDF length 0
+        hl = 4 if d["ftype"] == "truncated" else 7 + d["vcf_len"]
+        ocf = 4 if d["ocf"] is not None else 0
+        rest = total - hl - ocf            # insert zone + TFDF + FECF as packed
+        a = rest // 2
+        if d["ftype"] == "fixed":
+            props = uf.FixedFrameProperties(total, True, True, a, rest - a)
+        else:
+            props = uf.VarFrameProperties(True, True, total if d["ftype"] == "truncated" else 0, a, rest - a)
     elif kind == "no_room_for_tfdf":
         big = total
         if d["ftype"] == "fixed":
@@ -326,7 +336,7 @@ def run(ctx):
         k_frame(ctx, rand_frame(r))
     for _ in range(ctx.n(300, 30_000)):
         d = rand_frame(r, tfdz_len=r.choice((1, 2, 17)))
-        for kind in ("wrong_fixed_len", "truncated_under_fixed", "rule_of_other_type", "wrong_props_class", "no_room_for_tfdf"):
+        for kind in ("wrong_fixed_len", "truncated_under_fixed", "rule_of_other_type", "wrong_props_class", "no_room_for_tfdf", "sizes_leave_zero"):
             k_mismatch(ctx, d, kind)
 
 
@@ -336,7 +346,8 @@ def conclude(ctx):
     ctx.require(len(ctx.tables.get("rule_x_type", {})) == 13, "rule x frame type table incomplete")
     ctx.require(len(ctx.tables.get("upid", {})) == len(UPIDS), "protocol id table incomplete")
     for c in ("wrong_fixed_len/fixed", "truncated_under_fixed/truncated", "rule_of_other_type/fixed", "rule_of_other_type/variable", "wrong_props_class/fixed",
-              "wrong_props_class/truncated", "no_room_for_tfdf/fixed", "no_room_for_tfdf/variable", "no_room_for_tfdf/truncated"):
+              "wrong_props_class/truncated", "no_room_for_tfdf/fixed", "no_room_for_tfdf/variable", "no_room_for_tfdf/truncated",
+              "sizes_leave_zero/fixed", "sizes_leave_zero/variable", "sizes_leave_zero/truncated"):
         ctx.require(ctx.tables.get("mismatch_cells", {}).get(c, 0) > 0, f"mismatch cell {c} empty")
     for m in ("hdr.pack", "hdr.unpack", "hdr.len", "hdr.type", "hdr.id_refusal", "frame.pack", "frame.unpack", "frame.len", "frame.mismatch"):
         ctx.require(ctx.monitors.get(m, {}).get("evaluations", 0) > 0, f"monitor {m} never evaluated")
